@@ -57,12 +57,13 @@ def styles_exact(ctx):
     r = ctx.rng
     ensure = common.pm("images").PersistenceImager._ensure_iterable
     items, lines = [], []
-    for _ in range(ctx.n(160, 2500)):
+    for it in range(ctx.n(400, 5000)):
         case = c04.gen_case(ctx, kind="uniform", dyadic=True)
         pim = imager(case)
         bpn, ppn, res = [float(x) for x in pim._bpnts], [float(x) for x in pim._ppnts], tuple(int(x) for x in pim.resolution)
-        style = r.choice(["array", "lol", "list_of_arrays", "list_of_lol", "tuple_of_arrays", "array3d", "empty_array", "empty_list",
-                          "first_empty", "middle_empty", "all_empty", "single_in_list"])
+        STYLES = ["array", "lol", "list_of_arrays", "list_of_lol", "tuple_of_arrays", "array3d", "empty_array", "empty_list",
+                  "first_empty", "middle_empty", "all_empty", "single_in_list"]
+        style = STYLES[it % len(STYLES)] if it < 2 * len(STYLES) else r.choice(STYLES)     # every style first, then random
         k = r.randint(1, 4)
         dgms = [c04.more_dgm(ctx, case) for _ in range(k)]
         if style in ("array", "lol"):
@@ -206,7 +207,7 @@ def style_laws(case, inp, code, res, nj=None):
 
 def laws(ctx):
     r = ctx.rng
-    for it in range(ctx.n(220, 4000)):
+    for it in range(ctx.n(500, 6000)):
         case = c04.gen_case(ctx, kind=c04.KINDS[it % len(c04.KINDS)] if it < 24 else None)
         pim = imager(case)
         res = tuple(int(x) for x in pim.resolution)
